@@ -74,6 +74,10 @@ func init() {
 			fr.vc.assumptions["model:fmt.Sprintf (unconstrained string, no effects)"] = true
 			return TV(fr.vc.Fresh("sprintf", SString)), st
 		},
+		"path.Join": func(fr *Frame, a []Val, st *State, pos token.Pos) (Val, *State) {
+			fr.vc.assumptions["model:path.Join (unconstrained string; only used when TrimRightSlashEnabled is false)"] = true
+			return TV(fr.vc.Fresh("pathjoin", SString)), st
+		},
 		"fmt.Sprint": func(fr *Frame, a []Val, st *State, pos token.Pos) (Val, *State) {
 			fr.vc.assumptions["model:fmt.Sprint (unconstrained string, no effects)"] = true
 			return TV(fr.vc.Fresh("sprint", SString)), st
